@@ -5,6 +5,7 @@ import QV.Proofs.Front9
 import QV.Proofs.Front10
 import QV.Proofs.Front11
 import QV.Proofs.FrontT9
+import QV.Proofs.FrontX3
 import QV.Proofs.A2A6
 import QV.Proofs.A2A7
 import QV.Proofs.A2A8
@@ -692,6 +693,78 @@ the programs `C01_body` gives a meaning -/
 theorem semProgT_extends_semProg (p : Prog) (ρ : Env) (sv : Sem.SVal) (h : Sem.semProg p ρ = some sv) :
     Sem.semProgT p ρ = some sv.toT ∧ sv.toT.bits = sv.bits ∧ Sem.wellProg p ρ = true :=
   ⟨(Sem.semProgT_of_semProg p ρ sv h).1, Sem.toT_bits sv, (Sem.semProgT_of_semProg p ρ sv h).2⟩
+
+/-- **semT_agrees_sem_struct** - `semW_eq_sem` / `semW_low_bits` for the structured types.  `Sem.semXT`
+(`QV/Model/SemXT.lean`) is the exact python meaning widened like `SemT`: a value is a bool / `Qint` leaf
+(`XVal`: unbounded python int at the library type, with the number `k` of low bits wrap-around arithmetic
+determines), a `Qchar` leaf, or a tuple of such; a subscript selects python's bit `i` of the exact value,
+`==` / `!=` compare the exact leaves, an if-expression with an inexact test claims nothing.  On every
+expression on which both are defined, under environments that agree, the fixed-width value agrees with the
+exact one leaf by leaf (`Sem.AgreeT`: `Sem.Agree` on bool / `Qint` leaves - equal when in range, congruent
+modulo `2^j` for every `j` within the claim otherwise; equal `Qchar`s when claimed).  Structural induction
+with one lemma per operator (`QV/Proofs/FrontX1 … FrontX3.lean`); the bool / `Qint` operators through the
+lemmas of `Sem.sem_agree` (`mkInt_agree`, `intBin_agree`, …), new: `index_agree` (`bit_cong`: agreement on
+more than `i` low bits gives python's bit `i`), `cmpT_agree` (`beq_agree`: exact leaves equal iff the
+fixed-width ones are), `iteT_agree` (`undet_agree`). -/
+theorem semT_agrees_sem_struct (σX : Sem.XTEnv) (σW : Sem.TEnv) (henv : Sem.EnvAgreeT σX σW) (e : PExp)
+    (sv : Sem.TVal) (xv : Sem.XT) (hw : Sem.semT σW e = some sv) (hx : Sem.semXT σX e = some xv) :
+    Sem.AgreeT xv sv :=
+  Sem.semT_agree σX σW henv e sv xv hw hx
+
+/-- **C01_straightline_struct** - the property at full strength on the widened straight-line fragment
+(= `C01_body_struct` + `semT_agrees_sem_struct`).  If `translate` accepts a program of `Sem.structLine`
+with definition list `defs`, then for every assignment `ρ` of the argument bits at which no excluded site is
+reached: the fixed-width meaning `sv` (bool, `Qint`, `Qchar` or nested tuple) exists and the return symbols
+hold exactly its bits; and whenever the widened exact python semantics gives the program a value `xv` on
+the decoded arguments, `sv` agrees with it leaf by leaf, and every return bit that `xv` claims (`XT.claim`:
+per leaf all bits of the python value when in range, the low `k` bits otherwise) is the bit the definitions
+compute. -/
+theorem C01_straightline_struct (p : Prog) (consts : List (Bool × Bool)) (hp : Sem.structLine p = true)
+    (defs : List (String × BExp)) (events : List String)
+    (h : translate Quirks.none consts p = .ok (defs, events)) (ρ : Env) (hw : Sem.wellProg p ρ = true) :
+    ∃ sv, Sem.semProgT p ρ = some sv ∧ (p.ret.names "_ret").map (runDefs defs ρ) = sv.bits ∧
+      ∀ xv, Sem.semProgXT p ρ = some xv →
+        Sem.AgreeT xv sv ∧
+        ∀ (i : Nat) (b : Bool), xv.claim[i]? = some (some b) →
+          ∀ name, (p.ret.names "_ret")[i]? = some name → runDefs defs ρ name = b := by
+  obtain ⟨sv, hs, hbits⟩ := C01_body_struct p consts hp defs events h ρ hw
+  refine ⟨sv, hs, hbits, fun xv hx => ?_⟩
+  have ha := Sem.semProgT_agree p ρ sv xv hs hx
+  refine ⟨ha, fun i b hc name hn => ?_⟩
+  have h1 := Sem.agreeT_claim xv sv ha i b hc
+  rw [← hbits, List.getElem?_map, hn] at h1
+  simpa using h1
+
+/-- `C01_straightline_struct` in the shape of `C01_statement`: with `SemW p ρ :=` the claimed bits of the
+widened exact semantics where no excluded site is reached (`none` = nothing claimed elsewhere), the body of
+`C01_statement` holds for every program of `Sem.structLine` -/
+theorem C01_statement_struct (p : Prog) (consts : List (Bool × Bool)) (hp : Sem.structLine p = true) :
+    match translate Quirks.none consts p with
+    | .error _ => True
+    | .ok (defs, _) =>
+      ∀ ρ : String → Bool,
+        match (if Sem.wellProg p ρ then (Sem.semProgXT p ρ).map Sem.XT.claim else none) with
+        | none => True
+        | some expected =>
+          ∀ (i : Nat) (b : Bool), expected[i]? = some (some b) →
+            ∀ name, (p.ret.names "_ret")[i]? = some name → runDefs defs ρ name = b := by
+  split
+  · trivial
+  · rename_i defs ev htr
+    intro ρ
+    split
+    · trivial
+    · rename_i expected hexp
+      by_cases hw : Sem.wellProg p ρ = true
+      · simp only [hw, if_true] at hexp
+        obtain ⟨sv, _, _, hall⟩ := C01_straightline_struct p consts hp defs ev htr ρ hw
+        cases hx : Sem.semProgXT p ρ with
+        | none => simp [hx] at hexp
+        | some xv =>
+          simp only [hx, Option.map_some, Option.some.injEq] at hexp
+          subst hexp
+          exact (hall xv hx).2
+      · simp [hw] at hexp
 
 /-! ## guarded assignments: what `ast2ast` leaves for an `if`
 
